@@ -56,6 +56,15 @@ pub struct RawConn {
 
 /// connect the real mcs/sec/global layers (selected protocol: SSL) against the reference server
 pub fn raw_connect(cfg: &ClientCfg, p: ServerParams, devs: Vec<Deviation>) -> RawConn {
+    // the client's "random" values are the same in every run and in a replay
+    struct Unpattern;
+    impl Drop for Unpattern {
+        fn drop(&mut self) {
+            rdp::model::rnd::verif::set_pattern(None);
+        }
+    }
+    let _unpattern = Unpattern;
+    rdp::model::rnd::verif::set_pattern(Some((0..61u32).map(|i| (i.wrapping_mul(0x9E37_79B1) >> 23) as u8 ^ 0x5C).collect()));
     let peer = Rc::new(RefCell::new(RawPeer { srv: RefServer::at_mcs(p, devs) }));
     let link = MemLink::with_peer(peer.clone());
     let sh = link.sh.clone();
